@@ -194,9 +194,13 @@ structure Server where
   nextId : Nat
   final : List (Key × File)                    -- shares/<si>/<shnum>
   incoming : List (Key × (Writer × File))      -- shares/incoming/<si>/<shnum> + _bucket_writers
+  /-- `FoolscapStorageServer._bucket_writer_disconnect_markers`: handle ↦ connection (canary) whose
+      loss aborts it.  Entries of closed handles are left in place (the code pops them; a stale
+      entry is harmless because aborting a closed handle does nothing). -/
+  conns : List (Nat × Nat) := []
 
 def Server.empty (readonly : Bool) (reserved : Nat) : Server :=
-  { readonly, reserved, now := 0, nextId := 0, final := [], incoming := [] }
+  { readonly, reserved, now := 0, nextId := 0, final := [], incoming := [], conns := [] }
 
 /-- `StorageServer.allocated_size()` -/
 def allocatedSize (s : Server) : Nat := (s.incoming.map (fun e => e.2.1.maxSize)).sum
@@ -310,6 +314,24 @@ def abortOp (s : Server) (wid : Nat) : Server :=
   match findWid wid s.incoming with
   | none => s
   | some (k, _) => { s with incoming := eraseK k s.incoming }
+
+/-- `FoolscapStorageServer.remote_allocate_buckets(..., canary)`: `allocate_buckets`, then one
+    `canary.notifyOnDisconnect(bw.disconnected)` per new writer, remembered per writer. -/
+def allocateConn (s : Server) (c : Nat) (si : Nat) (shs : List Nat) (size : Nat) (rec : Bytes)
+    (free : Nat) (order : List Nat) : Server × Except LeaseRes AllocOut :=
+  let r := allocate s si shs size rec free order
+  match r.2 with
+  | .ok o => ({ r.1 with conns := r.1.conns ++ o.writers.map (fun p => (p.2, c)) }, r.2)
+  | .error _ => r
+
+/-- the handles registered on connection `c`, in registration order -/
+def widsOfConn (s : Server) (c : Nat) : List Nat :=
+  (s.conns.filter (fun p => p.2 == c)).map (·.1)
+
+/-- the connection `c` is lost: every watcher still registered on its canary fires
+    `bw.disconnected()`, i.e. every unfinished upload of that connection is aborted (a watcher of a
+    closed/aborted writer was unregistered: aborting such a handle does nothing). -/
+def disconnectOp (s : Server) (c : Nat) : Server := (widsOfConn s c).foldl abortOp s
 
 /-- `clock.advance(dt)`: every timeout with `deadline <= now` fires (abort) -/
 def advanceOp (s : Server) (dt : Nat) : Server :=
